@@ -1079,6 +1079,7 @@ func init() {
 		c08SubtableLimit(r)
 		c08ListLimits(r)
 		c08FeatureListLimits(r)
+		tagTablesPart(r, "C08.script-tags", "C08.roundtrip")
 		c08Sizes(r)
 	})
 }
